@@ -4,7 +4,7 @@ CONSTANTS
   Growths <- G3
   MaxNonUnit = 2
   LevelTriples <- TriplesQuick
-  BreakStep = 1
+  BreakStep = 2
   FromInput <- FromBoth
   ExplicitTargets = TRUE
   Refusals = TRUE
